@@ -555,6 +555,30 @@ fn check_sgr_overflow(role: Role, sep: u8, comps: [u64; 3], cs: bool, tail_bold:
 impl Property for C02 {
     type Case = Case;
 
+    fn fuzz(&self) -> Option<FuzzSpec> {
+        Some(FuzzSpec { target: "c02", jobs: 8, runs: 400_000, max_len: 512, seeds: 300 })
+    }
+
+    /// two bytes of read partition (high bytes of two cut selectors), then the input
+    fn case_from_bytes(&self, data: &[u8]) -> Option<Case> {
+        if data.len() < 2 {
+            return None;
+        }
+        let cuts = vec![(data[0] as u16) << 8 | 0x55, (data[1] as u16) << 8 | 0xaa];
+        Some(Case::Stream { input: data[2..].to_vec(), cuts })
+    }
+
+    fn case_to_bytes(&self, case: &Case) -> Option<Vec<u8>> {
+        match case {
+            Case::Stream { input, cuts } => {
+                let mut out = vec![cuts.first().map(|c| (c >> 8) as u8).unwrap_or(0), cuts.get(1).map(|c| (c >> 8) as u8).unwrap_or(0)];
+                out.extend_from_slice(input);
+                Some(out)
+            }
+            _ => None,
+        }
+    }
+
     fn id(&self) -> &'static str {
         "C02"
     }
